@@ -45,6 +45,7 @@ RTOL_HONEST = 1e-10  # x scale of the linear part  : class honesty predicates
 RTOL_TPS = 1e-8  # x coordinate scale          : TPS interpolation / reverse fit (cond(L) up to 3e5)
 
 MAXR = {}  # clause -> largest error/tolerance ratio seen (diagnostics only)
+TAG_SUFFIX = [""]  # diagnostics: float32 letters are tallied apart
 
 
 def _err(a, b):
@@ -63,6 +64,7 @@ def _err(a, b):
 def _close(tag, a, b, tol):
     e = _err(a, b)
     r = e / tol if tol > 0 else (0.0 if e == 0 else np.inf)
+    tag = tag + TAG_SUFFIX[0]
     if r > MAXR.get(tag, 0.0):
         MAXR[tag] = r
     return e <= tol, e
@@ -163,6 +165,167 @@ TPS_KERNELS = ["default", "R2LogR2RBF", "R2LogRRBF"]
 TC_SHAPES = [(3, 5), (4, 4), (7, 2), (2, 2)]
 SMALL_SCALE = 0.002  # TPS 'small' letter: landmark coordinates of order 1e-2 and a user-lowered singular value floor
 SMALL_MSV = 1e-9
+
+
+# ---- argument forms: the SAME payload handed over in another legal dtype / container / memory layout ------------
+DTYPES = {"f32": np.float32, "i64": np.int64, "i32": np.int32, "i16": np.int16, "u8": np.uint8}
+INT_FORMS = ("i64", "i32", "i16", "u8")
+ARRAY_FORMS = ("f32",) + INT_FORMS + ("ro", "nc", "fortran")
+SEQ_FORMS = ("list", "tuple")
+SCALAR_FORMS = ("pyint", "npi64", "npu8", "npf32", "npf64", "arr0d")
+QUANT = {"A": 8.0, "PWA": 8.0, "TPS": 2.0}  # integer grid = round(q x generic coordinates)
+# forms that the unchanged tree does not handle, for reasons outside C04 (reported, see assumptions())
+FORM_EXCLUDED = {
+    ("AlignmentAffine", "u8"): "the least-squares fit multiplies the uint8 coordinates in uint8 (wraps around)",
+    ("AlignmentRotation", "u8"): "the correlation matrix of the fit is accumulated in uint8 (wraps around)",
+    ("PWA", "i16"): "barycentric dot products are accumulated in int16 (overflow, TriangleContainmentError)",
+    ("PWA", "u8"): "barycentric differences / dot products are computed in uint8 (wrap around)",
+}
+
+
+def present(a, form):
+    """the float64 payload `a` handed over in another form (values must be representable: callers quantise first)"""
+    a = np.asarray(a, dtype=float)
+    if form in ("f64", "qf64"):
+        return a.copy()
+    if form in DTYPES:
+        return a.astype(DTYPES[form])
+    if form == "ro":
+        b = a.copy()
+        b.setflags(write=False)
+        return b
+    if form == "nc":  # every second row of a larger buffer: not contiguous, does not own its data
+        big = np.full((a.shape[0] * 2,) + a.shape[1:], -7.0)
+        big[::2] = a
+        return big[::2]
+    if form == "fortran":
+        return np.asfortranarray(a)
+    if form == "list":
+        return a.tolist()
+    if form == "tuple":
+        return tuple(tuple(r) if isinstance(r, list) else r for r in a.tolist())
+    raise HarnessError("unknown form %r" % (form,))
+
+
+def present_scalar(v, form):
+    return {"pyint": lambda: int(v), "npi64": lambda: np.int64(v), "npu8": lambda: np.uint8(v), "npf32": lambda: np.float32(v), "npf64": lambda: np.float64(v), "arr0d": lambda: np.array(float(v))}[form]()
+
+
+def values_of(obj):
+    """the float64 values of a presented payload (the reference model only ever sees these)"""
+    return np.asarray(obj, dtype=np.float64)
+
+
+def split_form(root):
+    """(base letter, (coordinate form, source container, target container)) of a root spec"""
+    root = tuple(root)
+    if "form" in root:
+        i = root.index("form")
+        return root[:i], tuple(root[i + 1 : i + 4])
+    return root, ("f64", "-", "-")
+
+
+def side_forms(cform):
+    """'i64|f64' = source as int64, target as float64; a single name = both"""
+    return tuple(cform.split("|")) if "|" in cform else (cform, cform)
+
+
+def needs_grid(cform):
+    return any(f in INT_FORMS or f == "qf64" for f in side_forms(cform))
+
+
+def form_letters(tier):
+    """argument-form roots: one representative letter per class x every form that class accepts today"""
+    out = []
+
+    def F(base, cform, sc="-", tc="-"):
+        out.append(tuple(base) + ("form", cform, sc, tc))
+
+    for d in (2, 3):
+        # -- plain classes: integer-valued parameters in every integer dtype, float parameters as float32 / views
+        for cls in ("Homogeneous", "Affine", "Similarity", "Rotation", "NonUniformScale", "Translation"):
+            base = ("H", cls, d, "intmat", 0)
+            out.append(base)
+            for f in INT_FORMS:
+                if f == "u8" and cls == "Rotation" and d == 2:
+                    continue  # the 2-D integer rotation holds -1
+                F(base, f)
+        out.append(("H", "UniformScale", d, "intmat", 0))
+        for f in SCALAR_FORMS:
+            F(("H", "UniformScale", d, "intmat", 0), f)
+        for f in ("npf32", "npf64", "arr0d"):
+            F(("H", "UniformScale", d, "s", 0.8), f)
+        reps = [("H", "Homogeneous", d, "proj", 0), ("H", "Affine", d, "generic", 0), ("H", "Similarity", d, "sim", 30, 0.4, 0)]
+        reps.append(("H", "Rotation", d, "angle", 30) if d == 2 else ("H", "Rotation", d, "axis", "g1", 30))
+        for base in reps:
+            for f in ("f32", "ro", "nc", "fortran"):
+                F(base, f)
+        for base in (("H", "NonUniformScale", d, "fixed", 0), ("H", "Translation", d, "mixed", 0)):
+            for f in ("f32", "ro", "nc") + SEQ_FORMS:
+                F(base, f)
+        # -- homogeneous alignments: source / target coordinates
+        forms_d = ("qf64", "f32", "i64", "i32", "i16", "u8", "ro", "nc", "fortran", "list", "tuple", "i64|f64", "f64|f32") if d == 2 else ("f32", "i64", "u8", "nc", "list")
+        for cls in ALIGN_CLASSES:
+            base = ("A", cls, d, "noisy", "-", 0)
+            for f in forms_d:
+                if (cls, f) not in FORM_EXCLUDED:
+                    F(base, f)
+            if d == 2:
+                for sc, tc in (("TriMesh", "TriMesh"), ("PointGraph", "PointGraph"), ("TriMesh", "PointCloud"), ("PointCloud", "PointGraph")):
+                    F(base, "f64", sc, tc)
+    # -- piecewise affine
+    for cls in ("PythonPWA", "CachedPWA"):
+        base = ("PWA", cls, "fan5", "trimesh", "jitter", 0)
+        for f in ("qf64", "f32", "i64", "i32", "ro", "nc", "fortran", "list", "tuple", "i64|f64"):
+            F(base, f)
+        for tc in ("TriMesh-same", "TriMesh-other", "TriMesh-delaunay", "PointGraph"):
+            F(base, "f64", "-", tc)
+            F(("PWA", cls, "quad", "trimesh", "diamond", 0), "f64", "-", tc)
+        F(base, "f64", "PointGraph", "-")
+        F(base, "f64", "PointCloud", "TriMesh-delaunay")
+    F(("PWA", "PiecewiseAffine", "quad", "trimesh", "diamond", 0), "f64", "-", "TriMesh-delaunay")
+    # -- thin plate splines
+    for k in ("default", "R2LogRRBF"):
+        base = ("TPS", k, 6, "jitter", "default", 0)
+        for f in ("qf64", "f32", "i64", "i32", "i16", "u8", "ro", "nc", "fortran", "list", "tuple", "i64|f64"):
+            F(base, f)
+        for sc, tc in (("TriMesh", "TriMesh"), ("PointGraph", "PointGraph"), ("PointCloud", "TriMesh"), ("TriMesh", "PointCloud")):
+            F(base, "f64", sc, tc)
+    return out
+
+
+def container(kind, pts, n, trilist=None, other=None):
+    """a legal container for landmark coordinates `pts` (already in their presented form)"""
+    from menpo.shape import PointCloud, PointUndirectedGraph, TriMesh
+
+    if kind == "PointCloud":
+        return PointCloud(pts)
+    if kind in ("TriMesh", "TriMesh-same"):
+        return TriMesh(pts, np.array(trilist))
+    if kind == "TriMesh-other":
+        return TriMesh(pts, np.array(other))
+    if kind == "TriMesh-delaunay":
+        return TriMesh(pts)
+    if kind == "PointGraph":
+        return PointUndirectedGraph.init_from_edges(pts, np.array([[i, i + 1] for i in range(n - 1)]))
+    raise HarnessError("unknown container %r" % (kind,))
+
+
+def pwa_reference(src, tgt, trilist, X, margin=0.03):
+    """reference piecewise affine map of arbitrary points: (image, mask of points well inside one triangle)"""
+    out = np.full(X.shape, np.nan)
+    best = np.full(X.shape[0], -np.inf)
+    for tri in trilist:
+        a, b, c = src[tri]
+        M = np.array([b - a, c - a]).T
+        ab = np.linalg.solve(M, (X - a).T).T
+        w = np.column_stack([1 - ab.sum(axis=1), ab])
+        inside = w.min(axis=1)
+        img = w.dot(tgt[tri])
+        better = inside > best
+        out[better] = img[better]
+        best[better] = inside[better]
+    return out, best > margin
 
 
 def plain_letters(d, tier):
@@ -277,21 +440,52 @@ class C04(Check):
         out += [("PWA",) + l for l in pwa_letters(self.tier)]
         out += [("TPS",) + l for l in tps_letters(self.tier)]
         out += [("TC", s[0], s[1]) for s in TC_SHAPES]
+        out += form_letters(self.tier)
         return out
 
     # ------------------------------------------------------------------ builders
     def _build_plain(self, root):
         import menpo.transform as mt
 
+        root, (pform, _sc, _tc) = split_form(root)
         cls, d, letter = root[1], int(root[2]), root[3]
         r = rs(self.seed, "c04", root)
+        P = (lambda a: present(a, pform))  # the constructor argument in its presented form
+        V = (lambda a: values_of(present(a, pform)))  # ... and the float64 values the model sees
+        info = {}
+        if letter == "intmat":
+            # small non-negative integers (representable in every integer dtype); the 2-D rotation holds one -1
+            if cls == "Homogeneous":
+                H = homog(10.0 * (np.array([[2.0, 1.0], [1.0, 1.0]]) if d == 2 else np.array([[2.0, 1.0, 0.0], [1.0, 1.0, 0.0], [0.0, 1.0, 1.0]])), [30.0, 20.0, 10.0][:d])
+                H[d, :d] = [1.0, 0.0, 0.0][:d]  # projective row: denominators x + 50 (horizon far from every probe)
+                H[d, d] = 50.0
+                return mt.Homogeneous(P(H)), V(H), info
+            if cls == "Affine":
+                H = homog(np.array([[2.0, 1.0], [1.0, 1.0]]) if d == 2 else np.array([[2.0, 1.0, 0.0], [1.0, 1.0, 0.0], [0.0, 1.0, 1.0]]), [3.0, 2.0, 1.0][:d])
+                return mt.Affine(P(H)), V(H), info
+            if cls == "Similarity":
+                L = np.array([[0.0, 2.0], [2.0, 0.0]]) if d == 2 else np.array([[0.0, 0.0, 2.0], [2.0, 0.0, 0.0], [0.0, 2.0, 0.0]])
+                H = homog(L, [3.0, 1.0, 2.0][:d])
+                return mt.Similarity(P(H)), V(H), info
+            if cls == "Rotation":
+                Rm = np.array([[0.0, -1.0], [1.0, 0.0]]) if d == 2 else np.array([[0.0, 0.0, 1.0], [1.0, 0.0, 0.0], [0.0, 1.0, 0.0]])
+                return mt.Rotation(P(Rm)), homog(V(Rm)), info
+            if cls == "UniformScale":
+                sc = present_scalar(3.0, pform) if pform != "f64" else 3.0
+                return mt.UniformScale(sc, d), homog(float(sc) * np.eye(d)), info
+            if cls == "NonUniformScale":
+                sv = np.array([2.0, 3.0, 4.0][:d])
+                return mt.NonUniformScale(P(sv)), homog(np.diag(V(sv))), info
+            if cls == "Translation":
+                tv = np.array([2.0, 3.0, 1.0][:d])
+                return mt.Translation(P(tv)), homog(np.eye(d), V(tv)), info
+            raise HarnessError(root)
         trans = 0.5 + 1.5 * r.rand(d)
         if d == 2:
             R = rot2(25 + 300 * r.rand())
         else:
             ax = r.randn(3)
             R = rodrigues(ax, 25 + 300 * r.rand())
-        info = {}
         if cls == "Homogeneous":
             L = R.dot(np.diag(0.7 + 0.8 * r.rand(d))) + 0.1 * r.rand(d, d)
             H = homog(L, trans)
@@ -302,7 +496,7 @@ class C04(Check):
                 H = H * 2.5
             if letter == "negscaled":
                 H = H * -1.5
-            return mt.Homogeneous(H.copy()), H, info
+            return mt.Homogeneous(P(H)), V(H), info
         if cls == "Affine":
             if letter == "generic":
                 L = R.dot(np.diag(0.7 + 0.8 * r.rand(d))) + 0.15 * r.rand(d, d)
@@ -320,7 +514,7 @@ class C04(Check):
             else:
                 raise HarnessError(root)
             H = homog(L, trans)
-            return mt.Affine(H.copy()), H, info
+            return mt.Affine(P(H)), V(H), info
         if cls == "Similarity":
             deg, s, mirror = root[4], root[5], root[6]
             Rm = rot2(deg) if d == 2 else rodrigues(ROT3_AXES["g1"], deg)
@@ -328,7 +522,7 @@ class C04(Check):
                 Rm = Rm.dot(np.diag([-1.0] + [1.0] * (d - 1)))
                 info["negdet"] = True
             H = homog(s * Rm, trans)
-            return mt.Similarity(H.copy()), H, info
+            return mt.Similarity(P(H)), V(H), info
         if cls == "Rotation":
             if letter == "angle":
                 Rm = rot2(root[4])
@@ -337,27 +531,28 @@ class C04(Check):
             else:  # mirror: an orthogonal matrix of determinant -1 (what AlignmentRotation(allow_mirror) may hold)
                 Rm = (rot2(root[4]) if d == 2 else rodrigues(ROT3_AXES["g2"], root[4])).dot(np.diag([1.0] * (d - 1) + [-1.0]))
                 info["negdet"] = True
-            return mt.Rotation(Rm.copy()), homog(Rm), info
+            return mt.Rotation(P(Rm)), homog(V(Rm)), info
         if cls == "UniformScale":
-            s = float(root[4])
-            return mt.UniformScale(s, d), homog(s * np.eye(d)), info
+            s = float(root[4]) if pform == "f64" else present_scalar(root[4], pform)
+            return mt.UniformScale(s, d), homog(float(s) * np.eye(d)), info
         if cls == "NonUniformScale":
             if letter == "fixed":
                 s = np.array(NUSCALES[d][root[4]], dtype=float)
             else:
                 s = 0.4 + 0.5 * np.arange(1, d + 1)[::-1] + 0.3 * r.rand(d)  # pairwise different on purpose
-            return mt.NonUniformScale(s.copy()), homog(np.diag(s)), info
+            return mt.NonUniformScale(P(s)), homog(np.diag(V(s))), info
         if cls == "Translation":
             mag = 0.5 + 2.0 * r.rand(d)
             sign = {"pos": np.ones(d), "neg": -np.ones(d), "mixed": np.array([1.0, -1.0, 1.0][:d]), "zero": np.zeros(d)}[letter]
             tv = mag * sign
-            return mt.Translation(tv.copy()), homog(np.eye(d), tv), info
+            return mt.Translation(P(tv)), homog(np.eye(d), V(tv)), info
         raise HarnessError("unknown plain letter %r" % (root,))
 
     def _build_align(self, root):
         import menpo.transform as mt
         from menpo.shape import PointCloud, TriMesh
 
+        root, (cform, scont, tcont) = split_form(root)
         cls, d, tl, opt = root[1], int(root[2]), root[3], root[4]
         r = rs(self.seed, "c04", root)
         n = d + 1 if opt == "minimal" else 8 if opt == "n8" else 5
@@ -385,10 +580,17 @@ class C04(Check):
             tgt = s * (src - c).dot(M.T).dot(R.T) + c + trans + 0.1 * r.randn(n, d)
         else:
             raise HarnessError(root)
-        if opt == "trimesh":
-            S, T = TriMesh(src.copy(), np.array([[0, 1, 2], [2, 3, 4]])), TriMesh(tgt.copy(), np.array([[0, 1, 2], [2, 3, 4]]))
-        else:
-            S, T = PointCloud(src.copy()), PointCloud(tgt.copy())
+        if needs_grid(cform):
+            src, tgt = np.round(QUANT["A"] * src), np.round(QUANT["A"] * tgt)
+            if _cdist(src, src)[np.triu_indices(n, 1)].min() < 2 or _cdist(tgt, tgt)[np.triu_indices(n, 1)].min() < 2:
+                raise HarnessError("integer grid letter %r lost general position" % (root,))
+        fs, ft = side_forms(cform)
+        ps, pt = present(src, fs), present(tgt, ft)
+        src, tgt = values_of(ps), values_of(pt)
+        tri5 = [[0, 1, 2], [2, 3, 4]]
+        if scont == "-":
+            scont = tcont = "TriMesh" if opt == "trimesh" else "PointCloud"
+        S, T = container(scont, ps, n, tri5), container(tcont, pt, n, tri5)
         kw = {}
         if opt == "norotation":
             kw["rotation"] = False
@@ -423,6 +625,7 @@ class C04(Check):
         from menpo.shape import PointCloud, TriMesh
         from menpo.transform.piecewiseaffine.base import CachedPWA, PythonPWA
 
+        root, (cform, scont, tcont) = split_form(root)
         cls, layout, skind, tl, var = root[1:6]
         src, trilist = self._pwa_layout(layout, var)
         r = rs(self.seed, "c04-pwa-t", root)
@@ -447,11 +650,26 @@ class C04(Check):
         else:
             raise HarnessError(root)
         klass = {"PythonPWA": PythonPWA, "CachedPWA": CachedPWA, "PiecewiseAffine": mt.PiecewiseAffine}[cls]
-        S = TriMesh(src.copy(), trilist.copy()) if skind == "trimesh" else PointCloud(src.copy())
-        t = klass(S, PointCloud(tgt.copy()))
+        q = 1.0
+        if needs_grid(cform):
+            q = QUANT["PWA"]
+            src, tgt = np.round(q * src), np.round(q * tgt)
+        fs, ft = side_forms(cform)
+        ps, pt = present(src, fs), present(tgt, ft)
+        src, tgt = values_of(ps), values_of(pt)
+        n = src.shape[0]
+        # a second, equally valid triangle list for the SAME points: a target mesh may carry one, the warp must ignore it
+        other = {"quad": [[0, 1, 3], [1, 2, 3]], "fan5": [[0, 1, 2], [0, 2, 3]]}.get(layout)
+        if scont == "-":
+            scont = "TriMesh" if skind == "trimesh" else "PointCloud"
+        if tcont == "-":
+            tcont = "PointCloud"
+        S = container(scont, ps, n, trilist, other)
+        T = container(tcont, pt, n, trilist, other)
+        t = klass(S, T)
         trilist = np.array(t.trilist, copy=True)  # for a PointCloud source the triangulation is an input read back
         # non-folding guard (deterministic): every triangle keeps a common orientation in source and in target
-        a_s, a_t = signed_areas(src, trilist), signed_areas(tgt, trilist)
+        a_s, a_t = signed_areas(src, trilist) / q ** 2, signed_areas(tgt, trilist) / q ** 2
         if not ((np.all(a_s > 0.05) or np.all(a_s < -0.05)) and (np.all(a_t > 0.05) or np.all(a_t < -0.05))):
             raise HarnessError("PWA letter %r folds: areas %r %r" % (root, a_s, a_t))
         return t, src, tgt, trilist
@@ -460,8 +678,11 @@ class C04(Check):
         import menpo.transform as mt
         from menpo.shape import PointCloud, TriMesh
 
+        root, (cform, scont, tcont) = split_form(root)
         kern, n, tl, floor, var = root[1:6]
-        scale = SMALL_SCALE if floor == "small" else 1.0
+        grid = needs_grid(cform)
+        fs, ft = side_forms(cform)
+        scale = SMALL_SCALE if floor == "small" else QUANT["TPS"] if grid else 1.0
         msv = SMALL_MSV if floor == "small" else 1e-4
         kname = "R2LogR2RBF" if kern == "default" else kern
         for attempt in range(200):
@@ -478,8 +699,11 @@ class C04(Check):
                 tgt = src + 1.2 * scale * (r.rand(n, 2) - 0.5)
             else:
                 raise HarnessError(root)
+            if grid:
+                src, tgt = np.round(src), np.round(tgt)
+            src, tgt = values_of(present(src, fs)), values_of(present(tgt, ft))
             # general position / conditioning guard on both directions (the reverse fit is centred on the target)
-            ok = _cdist(tgt, tgt)[np.triu_indices(n, 1)].min() >= 0.5 * scale
+            ok = _cdist(tgt, tgt)[np.triu_indices(n, 1)].min() >= 0.5 * scale and _cdist(src, src)[np.triu_indices(n, 1)].min() >= 0.5 * scale
             sv = [np.linalg.svd(tps_system(p, kname), compute_uv=False) for p in (src, tgt)]
             if floor == "small":
                 ok = ok and all(1e-7 < s.min() < 4e-5 for s in sv)  # the default floor 1e-4 would truncate both fits
@@ -489,16 +713,25 @@ class C04(Check):
                 break
         else:
             raise HarnessError("TPS guard cannot be satisfied for %r" % (root,))
-        kernel = None if kern == "default" else getattr(mt, kern)(src.copy())
-        S = TriMesh(src.copy(), np.array([[0, 1, 2], [3, 4, 5]])) if floor == "trimesh" else PointCloud(src.copy())
+        kernel = None if kern == "default" else getattr(mt, kern)(present(src, fs))
+        tri6 = [[0, 1, 2], [3, 4, 5]]
+        if scont == "-":
+            scont, tcont = ("TriMesh" if floor == "trimesh" else "PointCloud"), "PointCloud"
+        S = container(scont, present(src, fs), n, tri6)
+        T = container(tcont, present(tgt, ft), n, tri6)
         kw = {} if floor != "small" else {"min_singular_val": msv}
-        t = mt.ThinPlateSplines(S, PointCloud(tgt.copy()), kernel=kernel, **kw)
+        t = mt.ThinPlateSplines(S, T, kernel=kernel, **kw)
         return t, src, tgt, kname, scale, msv
 
     # ------------------------------------------------------------------ state
     def build(self, root):
         fam = root[0]
         st = {"fam": fam, "root": root, "n_inv": 0, "n_ret": 0, "n_comp": 0, "info": {}, "kept": []}
+        base, form = split_form(root)
+        st["form"] = form
+        # float32 payloads make menpo compute in float32 (homogeneous matrices, barycentric vectors): those letters are
+        # compared at float32 precision; TPS always solves in float64
+        st["tolx"] = 1e6 if ("f32" in form[0] and fam in ("H", "A", "PWA")) else 1.0
         if fam == "H":
             t, H, info = self._build_plain(root)
             st.update(t=t, cls=root[1], d=int(root[2]), H=H, info=info)
@@ -513,7 +746,7 @@ class C04(Check):
         elif fam == "A":
             t, src, tgt = self._build_align(root)
             # the fitted matrix is an INPUT here (the quality of the fit is C07): snapshot through the public API
-            st.update(t=t, cls=root[1], d=int(root[2]), H=np.array(t.h_matrix, copy=True), src=src, tgt=tgt)
+            st.update(t=t, cls=root[1], d=int(root[2]), H=np.array(t.h_matrix, dtype=float, copy=True), src=src, tgt=tgt)
         elif fam == "PWA":
             t, src, tgt, trilist = self._build_pwa(root)
             st.update(t=t, cls=root[1], d=2, src=src, tgt=tgt, trilist=trilist)
@@ -530,7 +763,13 @@ class C04(Check):
     def _set_h(self, st, H):
         st["H"] = np.array(H, dtype=float, copy=True)
         st["Hinv"] = np.linalg.solve(st["H"], np.eye(H.shape[0]))
-        st["cond"] = float(np.linalg.cond(st["H"]))
+        d = H.shape[0] - 1
+        if np.abs(st["H"][d, :d]).max() < 1e-12 and abs(st["H"][d, d] - 1) < 1e-12:
+            # affine: errors are amplified by the linear part only (the size of the translation enters the
+            # tolerances through the coordinate scale of the probe images)
+            st["cond"] = float(np.linalg.cond(st["H"][:d, :d]))
+        else:
+            st["cond"] = float(np.linalg.cond(st["H"]))
         if _err(st["H"].dot(st["Hinv"]), np.eye(H.shape[0])) > 1e-9 or st["cond"] > 1e4:
             raise HarnessError("reference matrix is badly conditioned (cond %.3g) for %r" % (st["cond"], st["root"]))
 
@@ -540,7 +779,7 @@ class C04(Check):
         return (st["n_inv"] % 2, st["n_ret"], st["n_comp"], bool(st.get("warm")), obs_key(observe(st["t"])))
 
     def is_query(self, op):
-        return op[0] in ("pinv_vec", "tc_pair")
+        return op[0] in ("pinv_vec", "tc_pair", "apply_forms")
 
     # ------------------------------------------------------------------ alphabet
     def ops(self, st, level):
@@ -549,6 +788,8 @@ class C04(Check):
             out.append(("pinv_vec",))
         if st["fam"] == "TC" and st["n_inv"] == 0:
             out.append(("tc_pair",))
+        if st["n_comp"] == 0 and st["n_ret"] == 0:
+            out.append(("apply_forms",))
         out.append(("pinv",))
         if st["fam"] in ("A", "PWA", "TPS") and st["n_ret"] < self.max_retargets():
             # 'warm': the inverse has been taken once before the target moves (a memoised inverse would go stale)
@@ -580,7 +821,7 @@ class C04(Check):
 
     def _map_tol(self, st, *arrays):
         scale = max([1.0] + [float(np.abs(a).max()) for a in arrays if np.size(a)])
-        return RTOL_MAP * max(1.0, st.get("cond", 1.0)) * scale
+        return RTOL_MAP * max(1.0, st.get("cond", 1.0)) * scale * st.get("tolx", 1.0)
 
     def _tps_points(self, st):
         sc = st["scale"]
@@ -610,6 +851,14 @@ class C04(Check):
 
     def _structure_notes(self, st):
         fam = st["fam"]
+        cform, sc, tc = st["form"]
+        if (cform, sc, tc) != ("f64", "-", "-"):
+            if cform != "f64":
+                self.note("form:%s:%s" % (fam, cform))
+            if (sc, tc) != ("-", "-"):
+                self.note("container:%s:%s>%s" % (fam, sc, tc))
+        if fam == "PWA" and st["n_inv"] == 0 and hasattr(st["t"].target, "trilist") and tri_set(st["t"].target.trilist) != tri_set(st["trilist"]):
+            self.note("structure:pwa-target-mesh-carries-another-trilist")
         if fam in ("H", "A", "TC"):
             H = st["H"]
             d = st["d"]
@@ -645,7 +894,7 @@ class C04(Check):
             return ["h_matrix has shape %r / non finite entries" % (H.shape,)]
         L, tr = H[:d, :d], H[:d, d]
         sc = max(1.0, float(np.abs(L).max())) ** 2
-        tol = RTOL_HONEST * sc * max(1.0, st_after["cond"])
+        tol = RTOL_HONEST * sc * max(1.0, st_after["cond"]) * st_after.get("tolx", 1.0)
 
         def chk(tag, a, b):
             ok, e = _close("honest-" + tag, a, b, tol)
@@ -676,6 +925,7 @@ class C04(Check):
     # ------------------------------------------------------------------ steps
     def apply(self, st, op, verify=True):
         np.random.seed(12345)  # Rotation._axis_and_angle_of_rotation_3d draws from the global stream
+        TAG_SUFFIX[0] = " [float32 letter]" if st.get("tolx", 1.0) > 1 else ""
         kind = op[0]
         if kind == "pinv":
             return self._op_pinv(st, verify)
@@ -687,6 +937,8 @@ class C04(Check):
             return self._op_pinv_vec(st) if verify else []
         if kind == "tc_pair":
             return self._op_tc_pair(st) if verify else []
+        if kind == "apply_forms":
+            return self._op_apply_forms(st) if verify else []
         raise HarnessError("unknown op %r" % (op,))
 
     def _swap_model(self, st):
@@ -777,7 +1029,8 @@ class C04(Check):
             if M.shape == st["H"].shape and np.all(np.isfinite(M)):
                 if not isinstance(p, mt.Affine) and abs(M[-1, -1]) > 1e-12:
                     M = M / M[-1, -1]
-                ok, e = _close("hprod", M, np.eye(M.shape[0]), RTOL_HPROD * max(1.0, st["cond"]) ** 2)
+                mag = max(1.0, float(np.abs(p.h_matrix).max()) * float(np.abs(t.h_matrix).max()))
+                ok, e = _close("hprod", M, np.eye(M.shape[0]), RTOL_HPROD * max(1.0, st["cond"]) ** 2 * mag * st["tolx"])
                 if not ok:
                     bad("h-product", "p.h_matrix . t.h_matrix differs from I by %.3g" % e)
             else:
@@ -811,7 +1064,7 @@ class C04(Check):
             if not ok:
                 bad("inverse-map", "p differs from the reference barycentric inverse: %s" % (e,))
             res = self._try_apply(p, st["tgt"])
-            ok, e = (False, res) if isinstance(res, str) else _close("interp", res, st["src"], 1e-8)
+            ok, e = (False, res) if isinstance(res, str) else _close("interp", res, st["src"], 1e-8 * max(1.0, float(np.abs(st["src"]).max())) * st["tolx"])
             if not ok:
                 bad("interpolation", "target landmarks are not sent back onto the source landmarks: %s" % (e,))
         if fam == "TPS":
@@ -844,7 +1097,7 @@ class C04(Check):
         return fails
 
     # ------------------------------------------------------------------ relatives that must stay what they were
-    MODEL_KEYS = ("fam", "cls", "d", "root", "H", "Hinv", "cond", "src", "tgt", "trilist", "kern", "scale", "msv")
+    MODEL_KEYS = ("fam", "cls", "d", "root", "H", "Hinv", "cond", "src", "tgt", "trilist", "kern", "scale", "msv", "tolx")
 
     def _model_of(self, st, inverse=False):
         """frozen copy of the reference model of the current object (or of its inverse)"""
@@ -1032,6 +1285,70 @@ class C04(Check):
             self.note("pinv_vec:" + ("ok" if same else "ok-vector-form-is-lossy"))
         return fails
 
+    PROBE_FORMS = ("i64", "i32", "f32", "ro", "nc", "fortran")
+
+    def _op_apply_forms(self, st):
+        """the points handed to apply() in other legal forms (integer dtypes, float32, read-only, strided, Fortran
+        order): t maps them as the float64 values say and the inverse brings the images back"""
+        t = st["t"]
+        fam, cls = st["fam"], st["cls"]
+        p = t.pseudoinverse()
+        fails = []
+        for form in self.PROBE_FORMS:
+            integer = form in INT_FORMS
+            if fam in ("H", "A", "TC"):
+                X, _ = self._probes(st, "fwd")
+                if st["n_inv"] % 2:
+                    X = h_apply(st["Hinv"], X)  # points of the range of the original: inside the domain of its inverse
+                if integer:
+                    X = np.unique(np.round(X), axis=0)
+                Xp = present(X, form)
+                Xv = values_of(Xp)
+                Yv = h_apply(st["H"], Xv)
+                tol = self._map_tol(st, Xv, Yv)
+            elif fam == "PWA":
+                X, _ = self._probes(st, "fwd")
+                if integer:
+                    X = np.unique(np.round(X), axis=0)
+                Xv = values_of(present(X, form))
+                Yv, inside = pwa_reference(st["src"], st["tgt"], st["trilist"], Xv)
+                if inside.sum() < 3:
+                    self.note("apply_forms:%s-too-few-interior-points" % form)
+                    continue
+                Xv, Yv = Xv[inside], Yv[inside]
+                Xp = present(Xv, form)
+                tol = self._map_tol(st, Xv, Yv)
+            else:
+                X = self._tps_points(st)
+                if integer:
+                    if st["scale"] < 1:
+                        continue  # landmark coordinates of order 1e-2: no integer points in the region
+                    X = np.unique(np.round(X), axis=0)
+                Xp = present(X, form)
+                Xv = values_of(Xp)
+                Yv = tps_fit(st["src"], st["tgt"], st["kern"])(Xv)
+                tol = RTOL_TPS * st["scale"]
+            y = np.asarray(t.apply(Xp))
+            if y.dtype == np.float32:
+                tol = max(tol, 1e-3 * max(1.0, float(np.abs(Yv).max())))
+            ok, e = _close("form-fwd", y, Yv, tol)
+            if not ok:
+                fails.append(Failure(cls, "map-depends-on-argument-form", "apply(points as %s) differs from the map of the same values by %.3g (root %r)" % (form, e, st["root"])))
+                continue
+            if fam == "TPS":
+                back = np.asarray(p.apply(present(st["tgt"], form if not integer else "f64")))
+                ok, e = _close("form-interp", back, st["src"], RTOL_TPS * st["scale"] * (1e5 if back.dtype == np.float32 or form == "f32" else 1.0))
+                want = "target landmarks (as %s) are not sent back onto the source landmarks" % form
+            else:
+                back = self._try_apply(p, y)
+                ok, e = (False, back) if isinstance(back, str) else _close("form-left", back, Xv, tol)
+                want = "p(t(points as %s)) != points" % form
+            if not ok:
+                fails.append(Failure(cls, "left-inverse-argument-form", "%s: %s (root %r)" % (want, e, st["root"])))
+            else:
+                self.note("apply_forms:%s" % form)
+        return fails
+
     def _op_tc_pair(self, st):
         from menpo.transform.tcoords import image_coords_to_tcoords
 
@@ -1065,6 +1382,7 @@ class C04(Check):
             "pinv-after-retarget:A",
             "pinv-after-retarget:PWA",
             "pinv-after-retarget:TPS",
+            "structure:pwa-target-mesh-carries-another-trilist",
             "kept-inverse:intact",
             "kept-original:intact",
             "honesty:asked",
@@ -1087,7 +1405,17 @@ class C04(Check):
             "structure:tps-default-floor-would-truncate-target",
         ]
         out = ["outcome %s never produced" % n for n in need if not notes.get(n)]
-        import menpo.transform as mt  # noqa
+        # every argument-form letter of the alphabet has to be exercised (built, inverted) at least once
+        for r in form_letters(self.tier):
+            _b, (cform, sc, tc) = split_form(r)
+            if cform != "f64" and not notes.get("form:%s:%s" % (r[0], cform)):
+                out.append("argument form %s of family %s never exercised" % (cform, r[0]))
+            if (sc, tc) != ("-", "-") and not notes.get("container:%s:%s>%s" % (r[0], sc, tc)):
+                out.append("container form %s>%s of family %s never exercised" % (sc, tc, r[0]))
+        for f in self.PROBE_FORMS:
+            if not notes.get("apply_forms:%s" % f):
+                out.append("probe points in form %s never applied" % f)
+        out = sorted(set(out))
 
         for c in ["Homogeneous", "Affine", "Similarity", "Rotation", "UniformScale", "NonUniformScale", "Translation"] + ALIGN_CLASSES + ["PythonPWA", "CachedPWA", "ThinPlateSplines"]:
             if not any(k.startswith("class:%s->" % c) for k in notes):
